@@ -14,6 +14,8 @@ import RedoModel.LocksWire
 import RedoModel.OnceWire
 import RedoModel.WaitsWire
 import RedoModel.PathsSemWire
+import RedoModel.LogFollowWire
+import RedoModel.ParWire
 open RedoModel RedoModel.Wire
 
 def decList (s : String) : Option (List (List Char)) :=
@@ -133,6 +135,10 @@ def respond (line : String) : String :=
   | ["sqltxn-replay", evs] => SqlTxnWire.respond evs
   | ["locks-replay", evs] => LocksWire.respond evs
   | ["once-replay", evs] => OnceWire.respond evs
+  | ["logfollow-replay", evs] => LogFollowWire.respond evs
+  | ["logfollow-run", insts, ph, evs] => LogFollowWire.respondRun insts ph evs
+  | ["par-replay", graph, pre, evs] => ParWire.respond graph pre evs
+  | ["par-serial", graph, pre, tops] => ParWire.respondSerial graph pre tops
   | ["waits-replay", reach, evs] => WaitsWire.respond reach evs
   | ["stamp-override", a, b] =>
     match dec a, dec b with
